@@ -6,7 +6,7 @@ stmt ::= ["arr", name, init]                     init: list of "k" (fresh symbol
        | ["reg", name]                             conn.builder.new_register(sym)
        | ["add", tgt, src, mod]                    tgt/src: handle; src may be ["k"]; mod: None | ["k"] (>= 1)
        | ["if", cond, a, b, form, body]            cond in eq ne lt ge ez nz; form "ctx" | "cb"
-       | ["loop", stop, form, body]                form "ctx" | "body";  index available as ["ix"]
+       | ["loop", stop, form, body[, start[, step]]]   form "ctx" | "body";  index available as ["ix"]
        | ["foreach", arr, body] | ["enum", arr, body]     element ["elt"], index ["ix"]
        | ["until", maxit, body, handle, ["k"]]     loop_until + ValueAtMostConstraint(handle, k)
        | ["q", qname] | ["g", qname, gate] | ["m", qname, dest, inplace] | ["rot", qname, axis, n, d]
@@ -145,7 +145,8 @@ class RefInterp:
             if self.cond(st[1], a, b):
                 self.run(st[5], scope)
         elif k == "loop":
-            for i in range(st[1]):
+            start, step = (st[4] if len(st) > 4 else 0), (st[5] if len(st) > 5 else 1)
+            for i in range(start, st[1], step):
                 self.run(st[3], dict(scope, ix=i))
         elif k in ("foreach", "enum"):
             for i in range(len(self.arrays[st[1]])):
@@ -263,11 +264,16 @@ class SdkInterp:
                     fn(a, b, lambda _c: self.run(body, scope))
         elif k == "loop":
             stop, form, body = st[1], st[2], st[3]
+            kw = {}
+            if len(st) > 4:
+                kw["start"] = st[4]
+            if len(st) > 5:
+                kw["step"] = st[5]
             if form == "ctx":
-                with conn.loop(stop) as reg:
+                with conn.loop(stop, **kw) as reg:
                     self.run(body, dict(scope, ixreg=reg, ixnat=reg))
             else:
-                conn.loop_body(lambda _c, rf: self.run(body, dict(scope, ixreg=rf.reg, ixnat=rf)), stop)
+                conn.loop_body(lambda _c, rf: self.run(body, dict(scope, ixreg=rf.reg, ixnat=rf)), stop, **kw)
         elif k == "foreach":
             with self.arrays[st[1]].foreach() as v:
                 self.run(st[2], dict(scope, elt=v, ixreg=v._index, ixnat=v._index))
